@@ -55,6 +55,7 @@ type c11Peer struct {
 	in, out      []byte
 	peerClosed   bool
 	clientClosed bool
+	closedQuiet  bool // closed by the client before anything was written in the current exchange (c11s.go)
 	rdl          time.Time
 }
 
@@ -170,6 +171,9 @@ func requestLen(b []byte) int {
 
 func (p *c11Peer) Close() error {
 	p.run.mu.Lock()
+	if !p.clientClosed {
+		p.closedQuiet = p.run.lastOn == nil
+	}
 	p.clientClosed = true
 	p.run.mu.Unlock()
 	return nil
